@@ -135,6 +135,9 @@ def execute(run):
             return f'{what}: shape {a.shape} vs {b.shape}'
         d = float(np.max(np.abs(a - b))) if a.size else 0.0
         lim = rtol * max(float(np.max(np.abs(b))) if b.size else 0.0, S ** p)
+        if p == 1:
+            # round-off floor of finite differences of the O(1) background
+            lim = max(lim, eng.fd_noise())
         if not d <= lim:
             idx = np.unravel_index(int(np.argmax(np.abs(a - b))), a.shape)
             return (f'{what}: max |diff| {d:.3e} > {lim:.3e} at '
